@@ -402,6 +402,56 @@ def rule_top_empty(ctx, cd, rule_id: str):
     ctx.floor(rule_id, n, 4)
 
 
+# ---- the generated routine's body is the codec macro's output for every type ------------------------------------------------
+def rule_entry(ctx, cd, which: str, rule_id: str):
+    """The body of <T>_serialize_/_deserialize_ (C), serialize()/deserialize() (C++) and _serialize_/_deserialize_ (Python) is
+    whatever the top-level codec macro renders.  A type-dependent alternative at the call site (a trivial body for a
+    'fieldless' type, say) takes the type out of everything the codec rules decide: a padding-only type then consumes or
+    produces nothing and whatever follows it in a container is read from / written to the wrong offset."""
+    N = cd.N
+    mname = "serialize" if which == "ser" else "deserialize"
+    ctx.rule(
+        rule_id,
+        f"every call of the top-level macro {mname}(<type>) from a C, C++ or Python type template is reached under conditions "
+        "that do not depend on the type (only on options, e.g. `not nunavut.support.omit`); the one type test allowed is the "
+        "macro's own emptiness test <type>.inner_type.bit_length_set.max.  Any other type-dependent alternative replaces the "
+        "decided codec body for some types",
+    )
+    n = 0
+    for lang in ("c", "cpp", "py"):
+        codec_t = cd.tmpl(lang, which)
+        for t in cd.ts.of_lang(lang, "templates"):
+            if t.rel == codec_t.rel:
+                continue
+            for node, stack in j2front.walk(t.ast, (), N):
+                if not (isinstance(node, N.Call) and isinstance(node.node, N.Name) and node.node.name == mname and node.args):
+                    continue
+                arg = node.args[0]
+                roots = j2front.names_in(arg)
+                n += 1
+                bad = []
+                for g in stack:
+                    if g.kind not in ("if", "condexpr"):
+                        if g.kind == "for" and (roots & j2front.names_in(g.node.iter)) and not (roots & j2front.names_in(g.node.target)):
+                            bad.append(f"for over {xs(g.node.iter)}")
+                        continue
+                    for e, pol in j2front.conj_terms(g.node, g.pol):
+                        if not (j2front.names_in(e) & roots):
+                            continue
+                        txt = xs(e)
+                        rest = txt
+                        for r in roots:
+                            rest = rest.replace(f"{r}.inner_type.bit_length_set.max", "")
+                        if any(re.search(rf"\b{re.escape(r)}\b", rest) for r in roots):
+                            bad.append(("" if pol else "not ") + txt)
+                ok = not bad
+                ctx.ob(rule_id, t.rel, f"{lang}: {mname}({xs(arg)}) is emitted for every type", ok,
+                       "" if ok else f"the call sits under the type-dependent condition(s) {bad}: for the other types the routine's body "
+                       "is not the codec macro's (not covered by any codec rule; a padding-only type that is given a trivial body "
+                       "consumes/produces 0 bytes and shifts everything behind it in its container)", node.lineno)
+    ctx.floor(rule_id, n, 3)
+
+
 # ---- alignment padding before every field and at the end -----------------------------------------------------------------
 def rule_padding(ctx, cd, which: str, rule_id: str):
     """The offsets pydsdl yields for fields are *after* alignment padding, so they can never justify omitting the padding:
